@@ -8,7 +8,7 @@ from .dm14net import Dm14Net, C_ADDR, S_ADDR, I_ADDR, PF_DM14, PF_DM15, PF_DM16
 
 ID = 'C19'
 LEVEL = 'fault_enumeration'
-BUDGET = {'quick': (600, 75.0), 'thorough': (60000, 1500.0)}
+BUDGET = {'quick': (8000, 80.0), 'thorough': (120000, 1500.0)}
 CHUNK = 20
 RULE = ('enumeration: for each transaction shape (read / write x with / without seed-key x single-frame (4 bytes) / multi-packet (20 bytes) data) a clean run fixes the F '
         'bus frames of the transaction; one run per (frame k before the closing DM14, intruder kind, repeat count): an intruding DM14 is put on the bus right after '
